@@ -153,6 +153,8 @@ ParentKey(segs) == LY!JoinSegs(SubSeq(segs, 1, Len(segs) - 1))
 CfgDir(x)  == LY!ConfigDirUsed(x.lay)
 \* effective configuration at node n: most specific level of the chain that sets the parameter, else the default
 CNodeCfg(x, n) == [p \in Params |-> IF CHits(x, p, n) = {} THEN Defaults[p] ELSE CEff(x, p, n)]
+\* one mock of the contract (selection o configuration, ConfigTreeContract!Mocks) with its resolved values
+\* (TemplateResolve fixpoint under the documented bindings) and its output path (Layout directories, clean join)
 MockInfo(x, m) ==
   LET c    == CNodeCfg(x, m.from)
       v    == ValsOf(c)
@@ -162,51 +164,61 @@ MockInfo(x, m) ==
       file |-> FileKey(segs), fsegs |-> segs, struct |-> TR!Text(fix.vals["structname"]),
       pkgname |-> TR!Text(fix.vals["pkgname"]), schema |-> TR!Text(fix.vals["schema"]),
       tid |-> c["template"], tmpl |-> TemplStr(c["template"]), force |-> c["force-file-write"]]
-CInfos(x)     == {MockInfo(x, m) : m \in CMocks(x)}
-CFiles(x)     == {i.file : i \in CInfos(x)}
-InfosOf(x, f) == {i \in CInfos(x) : i.file = f}
-\* the mocks sharing a file agree on source package, pkgname, template (else: conflict, C09) -- and on
-\* force-file-write (else the statement leaves the outcome open: such worlds are not generated)
-Uniform(x, f) == \A i, j \in InfosOf(x, f) : i.pkg = j.pkg /\ i.pkgname = j.pkgname /\ i.tmpl = j.tmpl
-WellFormed(x) == \A f \in CFiles(x) : \A i, j \in InfosOf(x, f) :
-                    /\ i.force = j.force
-                    /\ (i # j /\ Uniform(x, f)) => i.struct # j.struct
 MissingC(x)   == UNION {{<<P(p), L>> : L \in {n \in CListed(x, p) : n \notin DeclT[p]}} : p \in {"a", "k"}}
 LevelOK(x)    == CNodeCfg(x, "flag")["log-level"] \in LogLevels
-InputFault(x) == \/ x.pkgfault # "-"
-                 \/ \E i \in CInfos(x) : ~i.ok
-                 \/ ~LevelOK(x)
-                 \/ "real" \notin LY!RolesAllowed(x.lay)
-FileFaulty(x, f) == (\E i \in InfosOf(x, f) : TemplFault(i.tid) # "-") \/ x.fp.key = f
-ForceC(x, f)  == \A i \in InfosOf(x, f) : i.force
-MustKeep(x, f) == ~Uniform(x, f) \/ FileFaulty(x, f) \/ (f \in x.occ /\ ~ForceC(x, f))
-AnyFailure(x)  == InputFault(x) \/ MissingC(x) # {} \/ \E f \in CFiles(x) : MustKeep(x, f)
-ExpectExit(x)  == IF x.argv = "run" THEN (IF AnyFailure(x) THEN "nonzero" ELSE "zero")
-                  ELSE IF x.argv \in {"badflag", "badcmd"} THEN "nonzero"
-                  ELSE IF x.argv = "showconfig" /\ (x.pkgfault \in {"nocfg", "unknown-key"} \/ "real" \notin LY!RolesAllowed(x.lay)) THEN "nonzero"
-                  ELSE "zero"
-AllowedFinal(x, f) == IF x.argv # "run" \/ MustKeep(x, f) THEN {"old"} ELSE IF AnyFailure(x) THEN {"old", "new"} ELSE {"new"}
-NewContent(x, f) == [kind |-> "new", pkgname |-> (CHOOSE i \in InfosOf(x, f) : TRUE).pkgname,
-                     structs |-> {<<i.iface, i.struct>> : i \in InfosOf(x, f)}]
 \* the package table a run uses and `showconfig` shows: package -> node whose effective configuration it carries
 CTable(x) == [p \in {"a", "k"} \cup {s \in {"ab"} : CDiscovered(x, "a", s)} |-> IF p = "ab" THEN "a" ELSE p]
 MockRecOf(i) == [pkg |-> i.pkg, iface |-> i.iface, file |-> i.file, struct |-> i.struct, pkgname |-> i.pkgname, tmpl |-> i.tmpl]
 SelKeyOf(p, L) == P(p) \o "|" \o L
 ExpSel(x) == UNION {{SelKeyOf(p, L) : L \in {n \in DeclT[p] : CSelected(x, p, n)}} : p \in {"a", "k"}}
              \cup {SelKeyOf("ab", L) : L \in {n \in DeclT["ab"] : "ab" \in DOMAIN CTable(x) /\ CSelected(x, "a", n)}}
-\* the expectation handed to the skeleton (contract-* clauses) and exported with every case
-ExpOf(x) == [sel   |-> ExpSel(x),
-             known |-> UNION {{SelKeyOf(p, L) : L \in DeclT[p]} : p \in Pkgs},
-             mocks |-> {MockRecOf(i) : i \in CInfos(x)},
-             force |-> {[file |-> f, force |-> ForceC(x, f)] : f \in CFiles(x)},
-             src   |-> {[sub |-> P(s), parent |-> P(CTable(x)[s])] : s \in {q \in DOMAIN CTable(x) : CTable(x)[q] # q}},
-             exit  |-> ExpectExit(x)]
-Expectation(x) == [exp   |-> ExpOf(x),
-                   files |-> {[file |-> f, fsegs |-> (CHOOSE i \in InfosOf(x, f) : TRUE).fsegs, allowed |-> AllowedFinal(x, f),
-                               new |-> NewContent(x, f)] : f \in CFiles(x)},
-                   table |-> [p \in DOMAIN CTable(x) |-> [path |-> P(p), cfg |-> CNodeCfg(x, CTable(x)[p])]],
-                   top   |-> CNodeCfg(x, "flag"),
-                   missing |-> MissingC(x), anyfailure |-> AnyFailure(x), wellformed |-> WellFormed(x)]
+
+\* Everything the contract says about world x, computed ONCE (TLC does not cache operator applications):
+\*   infos      the mocks                         files     their output paths
+\*   uniform    the mocks sharing a file agree on source package, pkgname, template (else: conflict, C09)
+\*   mustkeep   the run has no legitimate way of putting new content there (Pipeline!MustKeep)
+\*   allowed    "old" / "new" per file (Pipeline!AllowedFinal), new = the complete new content
+\*   wellformed mocks sharing a file agree on force-file-write and have distinct struct names (else the statement
+\*              leaves the outcome open: such worlds are not generated)
+Contract(x) ==
+  LET I      == {MockInfo(x, m) : m \in CMocks(x)}
+      F      == {i.file : i \in I}
+      Of(f)  == {i \in I : i.file = f}
+      Uni(f) == \A i, j \in Of(f) : i.pkg = j.pkg /\ i.pkgname = j.pkgname /\ i.tmpl = j.tmpl
+      Frc(f) == \A i \in Of(f) : i.force
+      Flt(f) == (\E i \in Of(f) : TemplFault(i.tid) # "-") \/ x.fp.key = f
+      MK(f)  == ~Uni(f) \/ Flt(f) \/ (f \in x.occ /\ ~Frc(f))
+      Inp    == \/ x.pkgfault # "-"
+                \/ \E i \in I : ~i.ok
+                \/ ~LevelOK(x)
+                \/ "real" \notin LY!RolesAllowed(x.lay)
+      AnyF    == Inp \/ MissingC(x) # {} \/ \E f \in F : MK(f)
+      Ex     == IF x.argv = "run" THEN (IF AnyF THEN "nonzero" ELSE "zero")
+                ELSE IF x.argv \in {"badflag", "badcmd"} THEN "nonzero"
+                ELSE IF x.argv = "showconfig" /\ (x.pkgfault \in {"nocfg", "unknown-key"} \/ "real" \notin LY!RolesAllowed(x.lay)) THEN "nonzero"
+                ELSE "zero"
+      T      == CTable(x)
+  IN [infos |-> I, files |-> F,
+      uniform  |-> [f \in F |-> Uni(f)],
+      mustkeep |-> [f \in F |-> MK(f)],
+      allowed  |-> [f \in F |-> IF x.argv # "run" \/ MK(f) THEN {"old"} ELSE IF AnyF THEN {"old", "new"} ELSE {"new"}],
+      new      |-> [f \in F |-> [kind |-> "new", pkgname |-> (CHOOSE i \in Of(f) : TRUE).pkgname,
+                                 structs |-> {<<i.iface, i.struct>> : i \in Of(f)}]],
+      fsegs    |-> [f \in F |-> (CHOOSE i \in Of(f) : TRUE).fsegs],
+      anyfailure |-> AnyF, exit |-> Ex, missing |-> MissingC(x),
+      wellformed |-> \A f \in F : \A i, j \in Of(f) : i.force = j.force /\ ((i # j /\ Uni(f)) => i.struct # j.struct),
+      table |-> [p \in DOMAIN T |-> [path |-> P(p), cfg |-> CNodeCfg(x, T[p])]],
+      nodes |-> [n \in UNION {NodesOfPkg(x, p) : p \in {"a", "k"}} |-> CNodeCfg(x, n)],
+      top   |-> CNodeCfg(x, "flag"),
+      \* the expectation handed to the skeleton (contract-* clauses)
+      exp   |-> [sel   |-> ExpSel(x),
+                 known |-> UNION {{SelKeyOf(p, L) : L \in DeclT[p]} : p \in Pkgs},
+                 mocks |-> {MockRecOf(i) : i \in I},
+                 force |-> {[file |-> f, force |-> Frc(f)] : f \in F},
+                 src   |-> {[sub |-> P(s), parent |-> P(T[s])] : s \in {q \in DOMAIN T : T[q] # q}},
+                 exit  |-> Ex]]
+WellFormed(x) == Contract(x).wellformed
+CFiles(x) == {MockInfo(x, m).file : m \in CMocks(x)}
 
 -----------------------------------------------------------------------------
 (* CODE-SHAPED CLOSED MODEL *)
@@ -222,25 +234,27 @@ VARIABLES w,        \* the world
           out,      \* what the command printed (class)
           xc,       \* exit status, -1 while running
           snap,     \* (tbl, mcfg) after the first Initialize pass
-          anyfail   \* a file failed (only relevant when ~StopAtFailure)
-mvars == <<w, pc, mcfg, pend, cx, rs, cnode, fs, mk, out, xc, snap, anyfail>>
-vars  == <<ini, tbl, pass1, sl, colls, fl, fin, xb, w, pc, mcfg, pend, cx, rs, cnode, fs, mk, out, xc, snap, anyfail>>
+          anyfail,  \* a file failed (only relevant when ~StopAtFailure)
+          cc        \* Contract(w), computed once in Init (never changes)
+mvars == <<w, cc, pc, mcfg, pend, cx, rs, cnode, fs, mk, out, xc, snap, anyfail>>
+vars  == <<ini, tbl, pass1, sl, colls, fl, fin, xb, w, cc, pc, mcfg, pend, cx, rs, cnode, fs, mk, out, xc, snap, anyfail>>
 
 NoSnap == [set |-> FALSE, tbl |-> {}, mcfg |-> << >>]
 Cx0 == [recq |-> << >>, subq |-> << >>, curp |-> "", ifq |-> << >>, curL |-> "", entq |-> << >>, curn |-> ""]
 Rs0 == [vals |-> << >>, data |-> << >>, sraw |-> << >>, i |-> 0, ret |-> "-"]
 Others == {"src", "config", "unrelated"}
-Fs0(x) == [k \in CFiles(x) \cup x.occ \cup Others |->
-             IF k \in x.occ THEN [kind |-> "user"] ELSE IF k \in Others THEN [kind |-> "keep"] ELSE [kind |-> "absent"]]
+Fs0 == [k \in cc.files \cup w.occ \cup Others |->
+          IF k \in w.occ THEN [kind |-> "user"] ELSE IF k \in Others THEN [kind |-> "keep"] ELSE [kind |-> "absent"]]
 ById(path) == CHOOSE p \in Pkgs : P(p) = path
 Own(n) == IF n \in DOMAIN w.cfg THEN w.cfg[n] ELSE << >>
 ImplCfgDir == LY!ImplConfigDirDenotes(w.lay)
 DecoyRoot == ("structname" :> <<Lit("Decoy"), Var("InterfaceName")>>)
 
 Init == /\ w \in Worlds
-        /\ SkInit(XbOf(ExpOf(w)))
+        /\ cc = Contract(w)
+        /\ SkInit(XbOf(cc.exp))
         /\ pc = "start" /\ mcfg = << >> /\ pend = {} /\ cx = Cx0 /\ rs = Rs0 /\ cnode = << >>
-        /\ fs = Fs0(w) /\ mk = {} /\ out = "-" /\ xc = -1 /\ snap = NoSnap /\ anyfail = FALSE
+        /\ fs = Fs0 /\ mk = {} /\ out = "-" /\ xc = -1 /\ snap = NoSnap /\ anyfail = FALSE
 
 Keep(S) == UNCHANGED S
 SkKeep == UNCHANGED sk
@@ -252,7 +266,7 @@ Start ==
   /\ CASE w.argv \in {"help", "version"} -> out' = w.argv /\ xc' = 0 /\ pc' = "proc"
        [] w.argv \in {"badflag", "badcmd"} -> out' = "usage-error" /\ xc' = 1 /\ pc' = "proc"
        [] OTHER -> pc' = "load" /\ UNCHANGED <<out, xc>>
-  /\ SkKeep /\ UNCHANGED <<w, mcfg, pend, cx, rs, cnode, fs, mk, snap, anyfail>>
+  /\ SkKeep /\ UNCHANGED <<w, cc, mcfg, pend, cx, rs, cnode, fs, mk, snap, anyfail>>
 
 \* failure before / outside Run's per-file loop: logFatalErr (default command) or a plain error return (showconfig)
 Fail == IF w.argv = "run" THEN pc' = "die" /\ UNCHANGED xc ELSE pc' = "proc" /\ xc' = 1
@@ -267,7 +281,7 @@ LoadSources ==
                  file == IF role = "real" THEN Own("root") ELSE Over(Own("root"), DecoyRoot)
              IN mcfg' = ("root" :> Over(Over(Over(Defaults, Own("env")), file), Own("flag")))
           /\ pc' = "ibegin" /\ UNCHANGED xc
-  /\ SkKeep /\ UNCHANGED <<w, pend, cx, rs, cnode, fs, mk, out, snap, anyfail>>
+  /\ SkKeep /\ UNCHANGED <<w, cc, pend, cx, rs, cnode, fs, mk, out, snap, anyfail>>
 
 \* RootConfig.Initialize, config.go:349-421 (Recursive.tla checks discovery / inheritance over package trees)
 InitBegin ==
@@ -276,7 +290,7 @@ InitBegin ==
        /\ Sk([ev |-> "InitBegin", n |-> Cardinality(S)])
        /\ pend' = S
   /\ pc' = "loop1"
-  /\ UNCHANGED <<w, mcfg, cx, rs, cnode, fs, mk, out, xc, snap, anyfail>>
+  /\ UNCHANGED <<w, cc, mcfg, cx, rs, cnode, fs, mk, out, xc, snap, anyfail>>
 
 \* one iteration of `for pkgName, pkgConfig := range c.Packages`: merge root -> package -> interface -> entry
 MergeDown(p) ==
@@ -295,14 +309,14 @@ InitPkg(p) ==
   /\ mcfg' = MergeDown(p)
   /\ pend' = pend \ {p}
   /\ pc' = IF pend' = {} THEN "sort" ELSE "loop1"
-  /\ UNCHANGED <<w, cx, rs, cnode, fs, mk, out, xc, snap, anyfail>>
+  /\ UNCHANGED <<w, cc, cx, rs, cnode, fs, mk, out, xc, snap, anyfail>>
 
 \* config.go:377-385
 SortRecursive ==
   /\ pc = "sort"
   /\ cx' = [cx EXCEPT !.recq = SelectSeq(RecOrder, LAMBDA p : P(p) \in ini.seen /\ mcfg[p]["recursive"])]
   /\ pc' = "loop2"
-  /\ SkKeep /\ UNCHANGED <<w, mcfg, pend, rs, cnode, fs, mk, out, xc, snap, anyfail>>
+  /\ SkKeep /\ UNCHANGED <<w, cc, mcfg, pend, rs, cnode, fs, mk, out, xc, snap, anyfail>>
 
 Recursive ==
   /\ pc = "loop2" /\ cx.recq # << >>
@@ -310,7 +324,7 @@ Recursive ==
        /\ Sk([ev |-> "Recursive", pkg |-> P(r), psegs |-> PS(r)])
        /\ cx' = [cx EXCEPT !.recq = Tail(@), !.curp = r, !.subq = SubList[r]]
   /\ pc' = "subs"
-  /\ UNCHANGED <<w, mcfg, pend, rs, cnode, fs, mk, out, xc, snap, anyfail>>
+  /\ UNCHANGED <<w, cc, mcfg, pend, rs, cnode, fs, mk, out, xc, snap, anyfail>>
 
 ExcludedBy(a, k) == \E j \in 1..Len(mcfg[a]["exclude-subpkg-regex"]) : mcfg[a]["exclude-subpkg-regex"][j] = k
 SubStep ==
@@ -326,7 +340,7 @@ SubStep ==
                 THEN Sk(base @@ [ev |-> "Exclude"]) /\ UNCHANGED mcfg
                 ELSE /\ Sk(base @@ [ev |-> "Inject", existed |-> (P(k) \in tbl)])
                      /\ mcfg' = Ext(mcfg, k, Merge(mcfg[a], IF k \in DOMAIN mcfg THEN mcfg[k] ELSE << >>))
-  /\ UNCHANGED <<w, pend, rs, cnode, fs, mk, out, xc, snap, anyfail>>
+  /\ UNCHANGED <<w, cc, pend, rs, cnode, fs, mk, out, xc, snap, anyfail>>
 
 InitEnd ==
   /\ pc = "loop2" /\ cx.recq = << >>
@@ -335,19 +349,19 @@ InitEnd ==
      THEN /\ snap' = [set |-> TRUE, tbl |-> tbl, mcfg |-> mcfg]
           /\ pc' = IF w.argv = "showconfig" THEN "show" ELSE "runstart"
      ELSE /\ pc' = "parse" /\ UNCHANGED snap
-  /\ UNCHANGED <<w, mcfg, pend, cx, rs, cnode, fs, mk, out, xc, anyfail>>
+  /\ UNCHANGED <<w, cc, mcfg, pend, cx, rs, cnode, fs, mk, out, xc, anyfail>>
 
 \* showconfig.go: prints the configuration as it is after NewRootConfig (one Initialize pass)
 ShowConfig ==
   /\ pc = "show"
   /\ out' = [tbl |-> tbl, mcfg |-> mcfg] /\ xc' = 0 /\ pc' = "proc"
-  /\ SkKeep /\ UNCHANGED <<w, mcfg, pend, cx, rs, cnode, fs, mk, snap, anyfail>>
+  /\ SkKeep /\ UNCHANGED <<w, cc, mcfg, pend, cx, rs, cnode, fs, mk, snap, anyfail>>
 
 \* mockery.go:175-185: the logger is built from the effective log-level; then Initialize runs again
 RunStart ==
   /\ pc = "runstart"
   /\ pc' = IF mcfg["root"]["log-level"] \in LogLevels THEN "ibegin" ELSE "die"
-  /\ SkKeep /\ UNCHANGED <<w, mcfg, pend, cx, rs, cnode, fs, mk, out, xc, snap, anyfail>>
+  /\ SkKeep /\ UNCHANGED <<w, cc, mcfg, pend, cx, rs, cnode, fs, mk, out, xc, snap, anyfail>>
 
 \* parse.go:42-121: packages of the table, in the order GetPackages' map range produced
 Parse ==
@@ -356,14 +370,14 @@ Parse ==
      THEN pc' = "die" /\ SkKeep /\ UNCHANGED pend
      ELSE /\ Sk([ev |-> "Parsed", n |-> 0])
           /\ pend' = {ById(q) : q \in tbl} /\ pc' = "selpkg"
-  /\ UNCHANGED <<w, mcfg, cx, rs, cnode, fs, mk, out, xc, snap, anyfail>>
+  /\ UNCHANGED <<w, cc, mcfg, cx, rs, cnode, fs, mk, out, xc, snap, anyfail>>
 
 NextPkg(p) ==
   /\ pc = "selpkg" /\ p \in pend
   /\ pend' = pend \ {p}
   /\ cx' = [cx EXCEPT !.curp = p, !.ifq = IfSeq[p]]
   /\ pc' = "seliface"
-  /\ SkKeep /\ UNCHANGED <<w, mcfg, rs, cnode, fs, mk, out, xc, snap, anyfail>>
+  /\ SkKeep /\ UNCHANGED <<w, cc, mcfg, rs, cnode, fs, mk, out, xc, snap, anyfail>>
 
 \* config.go:510-557 as its chain of early returns (Selection.tla checks the full decision table)
 ImplSelected(p, L) ==
@@ -392,7 +406,7 @@ Select ==
              /\ cx' = [cx EXCEPT !.ifq = Tail(@), !.curL = L, !.entq = IF g THEN ImplEntries(p, L) ELSE << >>]
              /\ pc' = IF g THEN "entry" ELSE "seliface"
              /\ UNCHANGED pend
-  /\ UNCHANGED <<w, mcfg, rs, cnode, fs, mk, out, xc, snap, anyfail>>
+  /\ UNCHANGED <<w, cc, mcfg, rs, cnode, fs, mk, out, xc, snap, anyfail>>
 
 \* mockery.go:276-280: next `configs` entry, ParseTemplates on it
 Entry ==
@@ -406,7 +420,7 @@ Entry ==
              /\ rs' = [vals |-> NormVals(v), data |-> Bind(cx.curp, cx.curL, c["template"], ImplCfgDir), sraw |-> v["structname"],
                        i |-> 0, ret |-> "collect"]
              /\ pc' = "resolve"
-  /\ SkKeep /\ UNCHANGED <<w, mcfg, pend, cnode, fs, mk, out, xc, snap, anyfail>>
+  /\ SkKeep /\ UNCHANGED <<w, cc, mcfg, pend, cnode, fs, mk, out, xc, snap, anyfail>>
 
 \* config.go:720-754, one pass of the loop (TemplateResolve.tla checks the loop over all reference graphs)
 RIter ==
@@ -417,13 +431,13 @@ RIter ==
      ELSE LET nx == TR!RenderAll(rs.vals, rs.data, rs.sraw) IN
           /\ rs' = [rs EXCEPT !.vals = nx, !.i = @ + 1]
           /\ pc' = IF nx # rs.vals THEN "resolve" ELSE "resolved"
-  /\ UNCHANGED <<w, mcfg, pend, cx, cnode, fs, mk, out, xc, snap, anyfail>>
+  /\ UNCHANGED <<w, cc, mcfg, pend, cx, cnode, fs, mk, out, xc, snap, anyfail>>
 
 RLoop ==
   /\ pc = "rloop"
   /\ Sk([ev |-> "ResolveLoop", iface |-> cx.curL])
   /\ pc' = "die"
-  /\ UNCHANGED <<w, mcfg, pend, cx, rs, cnode, fs, mk, out, xc, snap, anyfail>>
+  /\ UNCHANGED <<w, cc, mcfg, pend, cx, rs, cnode, fs, mk, out, xc, snap, anyfail>>
 
 ResolvedDirSegs == IF rs.ret = "collect" THEN DirSegs(mcfg[cx.curn]["dir"], PkgDir(cx.curp)) ELSE << >>
 Resolved ==
@@ -432,7 +446,7 @@ Resolved ==
          fnsegs |-> <<TR!Text(rs.vals["filename"])>>, pkgname |-> TR!Text(rs.vals["pkgname"]),
          struct |-> TR!Text(rs.vals["structname"]), schema |-> TR!Text(rs.vals["schema"])])
   /\ pc' = rs.ret
-  /\ UNCHANGED <<w, mcfg, pend, cx, rs, cnode, fs, mk, out, xc, snap, anyfail>>
+  /\ UNCHANGED <<w, cc, mcfg, pend, cx, rs, cnode, fs, mk, out, xc, snap, anyfail>>
 
 \* mockery.go:281-305 + Append 134-170: the uniformity checks, then the mock joins its file's collection
 Collect ==
@@ -447,7 +461,7 @@ Collect ==
                     struct |-> sl.res.struct, pkgname |-> sl.res.pkgname, tmpl |-> t])
              /\ cnode' = IF f \in DOMAIN cnode THEN cnode ELSE Ext(cnode, f, [node |-> cx.curn, pid |-> cx.curp, segs |-> segs])
              /\ pc' = "entry"
-  /\ UNCHANGED <<w, mcfg, pend, cx, rs, fs, mk, out, xc, snap, anyfail>>
+  /\ UNCHANGED <<w, cc, mcfg, pend, cx, rs, fs, mk, out, xc, snap, anyfail>>
 
 \* top of the per-file loop, mockery.go:309-322 (range over a Go map), then ParseTemplates(nil) on the package config.
 \* Abstraction: the code resolves the package configuration IN PLACE, so the second file of a package needs one pass
@@ -461,7 +475,7 @@ FileBegin(f) ==
          v == ValsOf(c)
      IN rs' = [vals |-> NormVals(v), data |-> BindFile(p, c["template"], ImplCfgDir), sraw |-> v["structname"], i |-> 0, ret |-> "stage"]
   /\ pc' = "resolve"
-  /\ UNCHANGED <<w, mcfg, cx, cnode, fs, mk, out, xc, snap, anyfail>>
+  /\ UNCHANGED <<w, cc, mcfg, cx, cnode, fs, mk, out, xc, snap, anyfail>>
 
 FailFile == IF StopAtFailure THEN pc' = "die" /\ UNCHANGED anyfail ELSE pc' = "files" /\ anyfail' = TRUE
 CurTid == mcfg[cnode[fl.cur].node]["template"]
@@ -476,27 +490,27 @@ Stage ==
                hasschema |-> TRUE, validated |-> TRUE])
         /\ IF ~ok THEN FailFile
            ELSE pc' = (IF s = "format" THEN "gen" ELSE "stage") /\ UNCHANGED anyfail
-  /\ UNCHANGED <<w, mcfg, pend, cx, rs, cnode, fs, mk, out, xc, snap>>
+  /\ UNCHANGED <<w, cc, mcfg, pend, cx, rs, cnode, fs, mk, out, xc, snap>>
 
 Generated ==
   /\ pc = "gen"
   /\ Sk([ev |-> "Generated", file |-> fl.cur, bytes |-> 1])
   /\ pc' = "mkdir"
-  /\ UNCHANGED <<w, mcfg, pend, cx, rs, cnode, fs, mk, out, xc, snap, anyfail>>
+  /\ UNCHANGED <<w, cc, mcfg, pend, cx, rs, cnode, fs, mk, out, xc, snap, anyfail>>
 
 FpHere(point) == w.fp.point = point /\ w.fp.key = fl.cur
 Failpoint(point, at) ==
   /\ pc = at /\ FpHere(point)
   /\ Sk([ev |-> "Failpoint"])
   /\ FailFile
-  /\ UNCHANGED <<w, mcfg, pend, cx, rs, cnode, fs, mk, out, xc, snap>>
+  /\ UNCHANGED <<w, cc, mcfg, pend, cx, rs, cnode, fs, mk, out, xc, snap>>
 
 \* mockery.go:350
 Mkdir ==
   /\ pc = "mkdir" /\ ~FpHere("mkdir")
   /\ mk' = mk \cup {ParentKey(cnode[fl.cur].segs)}
   /\ pc' = "stat"
-  /\ SkKeep /\ UNCHANGED <<w, mcfg, pend, cx, rs, cnode, fs, out, xc, snap, anyfail>>
+  /\ SkKeep /\ UNCHANGED <<w, cc, mcfg, pend, cx, rs, cnode, fs, out, xc, snap, anyfail>>
 
 \* mockery.go:358-367: existence check gated by the force-file-write of the file's first mock
 Stat ==
@@ -505,7 +519,7 @@ Stat ==
          fo == mcfg[cnode[fl.cur].node]["force-file-write"]
      IN /\ Sk([ev |-> "Exists", file |-> fl.cur, exists |-> ex, force |-> fo])
         /\ IF ex /\ ~fo THEN FailFile ELSE pc' = "write" /\ UNCHANGED anyfail
-  /\ UNCHANGED <<w, mcfg, pend, cx, rs, cnode, fs, mk, out, xc, snap>>
+  /\ UNCHANGED <<w, cc, mcfg, pend, cx, rs, cnode, fs, mk, out, xc, snap>>
 
 \* mockery.go:372-375
 Write ==
@@ -514,44 +528,44 @@ Write ==
   /\ fs' = Ext(fs, fl.cur, [kind |-> "new", pkgname |-> colls[fl.cur].pkgname,
                              structs |-> {<<colls[fl.cur].mocks[j].iface, colls[fl.cur].mocks[j].struct>> : j \in 1..Len(colls[fl.cur].mocks)}])
   /\ pc' = "files"
-  /\ UNCHANGED <<w, mcfg, pend, cx, rs, cnode, mk, out, xc, snap, anyfail>>
+  /\ UNCHANGED <<w, cc, mcfg, pend, cx, rs, cnode, mk, out, xc, snap, anyfail>>
 
 \* mockery.go:378-390: listed interfaces that were never seen (range over a Go map)
 ImplMissing == UNION {{<<q, L>> : L \in {n \in CListed(w, ById(q)) : n \notin SeqSet(IfSeq[ById(q)])}} : q \in tbl}
 EndFiles ==
   /\ pc = "files" /\ pend = {}
   /\ pc' = "post" /\ pend' = ImplMissing
-  /\ SkKeep /\ UNCHANGED <<w, mcfg, cx, rs, cnode, fs, mk, out, xc, snap, anyfail>>
+  /\ SkKeep /\ UNCHANGED <<w, cc, mcfg, cx, rs, cnode, fs, mk, out, xc, snap, anyfail>>
 Missing(m) ==
   /\ pc = "post" /\ m \in pend
   /\ Sk([ev |-> "Missing", pkg |-> m[1], iface |-> m[2]])
   /\ pend' = pend \ {m}
-  /\ UNCHANGED <<w, pc, mcfg, cx, rs, cnode, fs, mk, out, xc, snap, anyfail>>
+  /\ UNCHANGED <<w, cc, pc, mcfg, cx, rs, cnode, fs, mk, out, xc, snap, anyfail>>
 Exit ==
   /\ pc = "post" /\ pend = {}
   /\ LET c == IF fin.miss # {} \/ anyfail THEN 1 ELSE 0 IN Sk([ev |-> "Exit", code |-> c]) /\ xc' = c
   /\ pc' = "proc"
-  /\ UNCHANGED <<w, mcfg, pend, cx, rs, cnode, fs, mk, out, snap, anyfail>>
+  /\ UNCHANGED <<w, cc, mcfg, pend, cx, rs, cnode, fs, mk, out, snap, anyfail>>
 \* logFatalErr, mockery.go:63-67
 Die ==
   /\ pc = "die"
   /\ Sk([ev |-> "Exit", code |-> 1]) /\ xc' = 1
   /\ pc' = "proc"
-  /\ UNCHANGED <<w, mcfg, pend, cx, rs, cnode, fs, mk, out, snap, anyfail>>
+  /\ UNCHANGED <<w, cc, mcfg, pend, cx, rs, cnode, fs, mk, out, snap, anyfail>>
 
 RECURSIVE SetToSeq(_)
 SetToSeq(S) == IF S = {} THEN << >> ELSE LET x == CHOOSE y \in S : TRUE IN <<x>> \o SetToSeq(S \ {x})
-Changed == {k \in DOMAIN fs : k \notin DOMAIN Fs0(w) \/ fs[k] # Fs0(w)[k]}
+Changed == {k \in DOMAIN fs : k \notin DOMAIN Fs0 \/ fs[k] # Fs0[k]}
 ProcExit ==
   /\ pc = "proc"
   /\ Sk([ev |-> "ProcExit", code |-> xc])
   /\ pc' = "tree"
-  /\ UNCHANGED <<w, mcfg, pend, cx, rs, cnode, fs, mk, out, xc, snap, anyfail>>
+  /\ UNCHANGED <<w, cc, mcfg, pend, cx, rs, cnode, fs, mk, out, xc, snap, anyfail>>
 Tree ==
   /\ pc = "tree"
   /\ Sk([ev |-> "Tree", changed |-> SetToSeq(Changed)])
   /\ pc' = "done"
-  /\ UNCHANGED <<w, mcfg, pend, cx, rs, cnode, fs, mk, out, xc, snap, anyfail>>
+  /\ UNCHANGED <<w, cc, mcfg, pend, cx, rs, cnode, fs, mk, out, xc, snap, anyfail>>
 Done == pc = "done" /\ UNCHANGED vars
 
 Next == \/ Start \/ LoadSources \/ InitBegin \/ (\E p \in Pkgs : InitPkg(p)) \/ SortRecursive \/ Recursive \/ SubStep \/ InitEnd
@@ -567,47 +581,47 @@ WorldsOnly == Init /\ [][FALSE]_vars
 Finished == pc = "done"
 IsRun == w.argv = "run"
 OutcomeOf(f) == IF f \notin DOMAIN fs THEN "other"
-                ELSE IF fs[f] = Fs0(w)[f] THEN "old" ELSE IF fs[f] = NewContent(w, f) THEN "new" ELSE "other"
+                ELSE IF fs[f] = Fs0[f] THEN "old" ELSE IF fs[f] = cc.new[f] THEN "new" ELSE "other"
 
 TypeOK == /\ xc \in {-1, 0, 1} /\ \A k \in DOMAIN fs : fs[k].kind \in {"absent", "user", "keep", "new"}
+          /\ cc = Contract(w)
 \* selection o configuration o template resolution o pipeline: status 0 means that for every (package, interface,
 \* entry) the contract selects, the file at the path the contract's effective dir / filename give holds new content
 \* with exactly the contract's (interface, struct name) pairs for that path
 ZeroMeansContractDelivered ==
   Finished /\ IsRun /\ xc = 0 =>
-    /\ \A i \in CInfos(w) : i.file \in DOMAIN fs /\ fs[i.file] = NewContent(w, i.file)
-    /\ fl.written = CFiles(w)
+    /\ \A i \in cc.infos : i.file \in DOMAIN fs /\ fs[i.file] = cc.new[i.file]
+    /\ fl.written = cc.files
 \* every path holds its old content or the contract's complete new content -- in every state, whatever failed
-OldOrContractNew == IsRun => \A f \in CFiles(w) : OutcomeOf(f) \in {"old", "new"}
+OldOrContractNew == IsRun => \A f \in cc.files : OutcomeOf(f) \in {"old", "new"}
 \* nothing outside the designated paths ever changes; directories are only created above designated paths
-Frame == /\ \A k \in DOMAIN fs : k \notin CFiles(w) => (k \in DOMAIN Fs0(w) /\ fs[k] = Fs0(w)[k])
-         /\ mk \subseteq {ParentKey((CHOOSE i \in InfosOf(w, f) : TRUE).fsegs) : f \in CFiles(w)}
+Frame == /\ \A k \in DOMAIN fs : k \notin cc.files => (k \in DOMAIN Fs0 /\ fs[k] = Fs0[k])
+         /\ mk \subseteq {ParentKey(cc.fsegs[f]) : f \in cc.files}
 \* a package / interface the contract does not select contributes no mock to any file
 UnselectedContributeNothing ==
   \A k \in DOMAIN fs : fs[k].kind = "new" =>
-     \A s \in fs[k].structs : \E i \in CInfos(w) : i.file = k /\ i.iface = s[1] /\ i.struct = s[2]
+     \A s \in fs[k].structs : \E i \in cc.infos : i.file = k /\ i.iface = s[1] /\ i.struct = s[2]
 \* the outcome is the contract's function of the world, whatever order every map range took
 OutcomeIsContract ==
-  Finished => /\ (xc = 0) <=> (ExpectExit(w) = "zero")
-              /\ \A f \in CFiles(w) : OutcomeOf(f) \in AllowedFinal(w, f)
-MustKeepKept == \A f \in CFiles(w) : MustKeep(w, f) => OutcomeOf(f) = "old"
+  Finished => /\ (xc = 0) <=> (cc.exit = "zero")
+              /\ \A f \in cc.files : OutcomeOf(f) \in cc.allowed[f]
+MustKeepKept == \A f \in cc.files : cc.mustkeep[f] => OutcomeOf(f) = "old"
 \* the two Initialize passes agree (C06), and both agree with the contract's table and effective values (C07 / C08)
 TableAsContract(t, m) ==
-  /\ t = {P(p) : p \in DOMAIN CTable(w)}
-  /\ \A p \in DOMAIN CTable(w) : m[p] = CNodeCfg(w, CTable(w)[p])
-  /\ \A p \in {"a", "k"} : \A n \in NodesOfPkg(w, p) : m[n] = CNodeCfg(w, n)
+  /\ t = {cc.table[p].path : p \in DOMAIN cc.table}
+  /\ \A p \in DOMAIN cc.table : m[p] = cc.table[p].cfg
+  /\ \A n \in DOMAIN cc.nodes : m[n] = cc.nodes[n]
 ConfigUsable == w.pkgfault \notin {"nocfg", "unknown-key"} /\ LY!ImplRoleUsed(w.lay) = "real"
 PassesAgree == pc \in {"parse", "selpkg", "seliface", "entry", "files", "post", "done"} /\ IsRun /\ snap.set /\ ini.passes = 2 =>
                   snap.tbl = tbl /\ snap.mcfg = mcfg
 InitializeAsContract == snap.set /\ ConfigUsable => TableAsContract(snap.tbl, snap.mcfg)
 \* `showconfig` shows exactly what a run uses
-ShowconfigShowsWhatRunUses ==
-  Finished /\ w.argv = "showconfig" /\ xc = 0 => out.tbl = {P(p) : p \in DOMAIN CTable(w)} /\ TableAsContract(out.tbl, out.mcfg)
+ShowconfigShowsWhatRunUses == Finished /\ w.argv = "showconfig" /\ xc = 0 => TableAsContract(out.tbl, out.mcfg)
 \* only the default command writes anything
-OtherCommandsTouchNothing == ~IsRun => fs = Fs0(w) /\ mk = {}
-\* log level, environment vs flag: no influence on files or status (the contract operators never read it, except that an
-\* unknown level is an invalid input); stated as: the effective top-level value is the layered one
-SourcesLayered == "root" \in DOMAIN mcfg /\ ConfigUsable => mcfg["root"] = CNodeCfg(w, "flag")
+OtherCommandsTouchNothing == ~IsRun => fs = Fs0 /\ mk = {}
+\* defaults < MOCKERY_* < file < flags: the effective top-level value is the layered one (log level, environment vs
+\* flag have no other influence: the contract operators never read them, except that an unknown level is an invalid input)
+SourcesLayered == "root" \in DOMAIN mcfg /\ ConfigUsable => mcfg["root"] = cc.top
 \* the real config file is the one in use
 RealConfigUsed == "root" \in DOMAIN mcfg /\ "real" \in LY!RolesAllowed(w.lay) /\ ~LY!DecoyMayWin(w.lay) => LY!ImplRoleUsed(w.lay) = "real"
 Terminates == Finished => xc \in {0, 1} /\ fin.proc = xc
@@ -619,10 +633,11 @@ NeverInjectNew == ini.fresh = {}
 NeverExclude == ini.excl = {}
 NeverOverwrite == ~(\E f \in fl.written : f \in w.occ)
 NeverBlocked == ~(Finished /\ \E f \in fl.failed : f \in w.occ)
-NeverConflict == ~(Finished /\ IsRun /\ \E f \in CFiles(w) : ~Uniform(w, f))
+NeverConflict == ~(Finished /\ IsRun /\ \E f \in cc.files : ~cc.uniform[f])
+NeverLoop == ~sl.reserr
+NeverMissing == fin.miss = {}
 
 -----------------------------------------------------------------------------
 (* Export: one CASE per world with the contract's expectation *)
-CaseRec(x) == [world |-> x, expect |-> Expectation(x)]
-EmitCase == IF pc = "start" THEN PrintT(<<"CASE", ToJson(CaseRec(w))>>) ELSE TRUE
+EmitCase == IF pc = "start" THEN PrintT(<<"CASE", ToJson([world |-> w, expect |-> cc])>>) ELSE TRUE
 =============================================================================
